@@ -66,6 +66,7 @@ class RealCase:
         src = (f"def {name}({', '.join(sig)}):\n"
                f"    return App({prov['f']}, [{', '.join(pos)}], [{', '.join(f'({k!r}, {k})' for k in kw)}])\n")
         exec(src, ns)  # noqa: S102
+        self.funcs[id(ns[name])] = (prov["f"], ns[name])
         return ns[name]
 
     # predicates ---------------------------------------------------------------
@@ -205,6 +206,57 @@ class RealCase:
         except Exception as e:  # noqa: BLE001
             return ("error", type(e).__name__)
         return ("ok", conv, stub)
+
+    def observe_linkings(self):
+        """the linkings ModelCoercerProvider fetches for the *top-level* model pair, observed by a subclass
+        placed at the head of the recipe (it is the same provider, only recording); None when no converter"""
+        from adaptix import ProviderNotFoundError
+        from adaptix import conversion as cv
+        from adaptix._internal.conversion.model_coercer_provider import ModelCoercerProvider
+        from adaptix._internal.conversion.request_cls import ConstantLinking, FieldLinking, FunctionLinking
+        from adaptix._internal.model_tools.definitions import DefaultValue
+        seen = {}
+        real = self
+
+        def source_json(request, source):
+            if source in request.ctx.loc_stacks:
+                return {"s": "param", "i": request.ctx.loc_stacks.index(source), "name": source.last.field_id}
+            return {"s": "field", "id": source.last.field_id}
+
+        def linking_json(request, res):
+            if res is None:
+                return {"l": "skipped"}
+            lk = res.linking
+            if isinstance(lk, FieldLinking):
+                return {"l": "field", "src": source_json(request, lk.source), "coercer": lk.coercer is not None}
+            if isinstance(lk, ConstantLinking):
+                if isinstance(lk.constant, DefaultValue):
+                    return {"l": "const", "value": real.u.to_json(lk.constant.value)}
+                return {"l": "factory"}
+            if isinstance(lk, FunctionLinking):
+                args = []
+                for sp in lk.param_specs:
+                    if isinstance(sp.linking.linking, FieldLinking):
+                        args.append({"name": sp.field.id, "src": source_json(request, sp.linking.linking.source)})
+                    else:
+                        args.append({"name": sp.field.id, "s": "model"})
+                return {"l": "func", "f": real.funcs.get(id(lk.func), (None,))[0], "args": args}
+            return {"l": "?"}
+
+        class Recorder(ModelCoercerProvider):
+            def _fetch_linkings(self, mediator, request, dst_shape, src_shape):
+                out = list(super()._fetch_linkings(mediator, request, dst_shape, src_shape))
+                if len(request.dst) == 1:
+                    seen["top"] = [[f.id, linking_json(request, res)] for f, res in out]
+                return out
+
+        recipe = [self.provider(p) for p in self.case["recipe"]]
+        stub = self.make_stub()
+        try:
+            cv.ConversionRetort(recipe=[*recipe, Recorder()]).impl_converter(stub)
+        except ProviderNotFoundError:
+            return None
+        return seen.get("top")
 
     def call(self, conv, call):
         args = [self.u.from_json(a) for a in call["args"]]
